@@ -37,6 +37,11 @@ RESIDUE = ["`cooler cload tabix`/pairix (pysam retrieval) is not modelled and no
 
 TRIL = {"reflect": "TrilReflect", "drop": "TrilDrop", None: "TrilNone", "raise": "TrilRaise"}
 UNK = "chrUn_x"
+UNLISTED = {-1: UNK, -2: "chrUn_y", -3: "0_scaffold"}      # chromosome codes < 0: names that are not in the bin table
+
+
+def name_of(names, c):
+    return names[c] if c >= 0 else UNLISTED.get(c, UNK)
 
 
 # ------------------------------------------------------------------ oracle (reads the property, never the code)
@@ -113,22 +118,22 @@ def chrom_column(names, values, how):
         return values, None
     present = set(values)
     if how == "cat_bin":
-        cats = list(names) + ([UNK] if UNK in present else [])
+        cats = list(names) + sorted(present - set(names))
     elif how == "cat_alpha":
-        cats = sorted(list(names) + ([UNK] if UNK in present else []))
+        cats = sorted(set(names) | present)
     elif how == "cat_rev":
-        cats = (list(names) + ([UNK] if UNK in present else []))[::-1]
+        cats = (list(names) + sorted(present - set(names)))[::-1]
     elif how == "cat_extra":
-        cats = ["aaa_unused"] + sorted(names, reverse=True) + ["zzz_unused"] + ([UNK] if UNK in present else [])
+        cats = ["aaa_unused"] + sorted(names, reverse=True) + ["zzz_unused"] + sorted(present - set(names))
     elif how == "cat_subset":
-        cats = sorted(n for n in present if n != UNK)      # UNK is not a category: becomes NaN, i.e. an unlisted chromosome
+        cats = sorted(n for n in present if n in set(names))      # unlisted names are not categories: they become NaN, i.e. dropped
     else:
         raise AssertionError(how)
     return values, pd.CategoricalDtype(cats)
 
 
 def rec_df(names, anchor, xname, chunk, decode=True, with_x=True, with_count=None, chrom_repr="object", pos_dtype="int64", suf=("1", "2")):
-    nm = (lambda c: names[c] if c >= 0 else UNK) if decode else (lambda c: c)
+    nm = (lambda c: name_of(names, c)) if decode else (lambda c: c)
     pdt = POS_DTYPES[pos_dtype or "int64"]
     c1 = [nm(r[0]) for r in chunk]
     c2 = [nm(r[3]) for r in chunk]
@@ -302,7 +307,7 @@ def run_cli(tmpdir, k, blocks, names, case):
         csz = max(1, len(case["chunks"][0])) if case["chunks"] else 1
         inp = os.path.join(d, "in.txt")
         out = os.path.join(d, "out.cool")
-        nm = lambda c: names[c] if c >= 0 else UNK  # noqa: E731
+        nm = lambda c: name_of(names, c)  # noqa: E731
         args = []
         if case["fn"] == "cload_pairs":
             with open(inp, "w") as f:
@@ -324,7 +329,7 @@ def run_cli(tmpdir, k, blocks, names, case):
                     f.write(f"{nm(r[0])}\t{r[1]}\t{nm(r[3])}\t{r[4]}\n")
             pysam.tabix_index(inp, seq_col=0, start_col=1, end_col=1, zerobased=not o["one_based"], force=True)
             inp = inp + ".gz"
-            args = ["cload", "tabix", "--nproc", "1", "-c2", "3", "-p2", "4"] + ([] if o["one_based"] else ["--zero-based"])
+            args = ["cload", "tabix", "--nproc", str(o.get("nproc", 1)), "-c2", "3", "-p2", "4"] + (["--max-split", str(o["max_split"])] if o.get("max_split") else []) + ([] if o["one_based"] else ["--zero-based"])
         elif case["fn"] == "load_bg2":
             with open(inp, "w") as f:
                 if o.get("comment"):
@@ -388,6 +393,8 @@ def table_worker(job):
                     out.append(run_pixels(bins, case))
                 elif case["fn"] == "ctor":
                     out.append(run_ctor(bins, case))
+                elif case.get("opts", {}).get("nproc", 1) > 1:
+                    out.append("deferred")          # a process pool cannot be started from a pool worker: the parent runs it
                 else:
                     out.append(run_cli(tmpdir, f"{k}_{j}", blocks, names, case))
             except TimeoutError:
@@ -675,6 +682,104 @@ def gen_cli_cases(rng, widths, n_runs):
     return cases
 
 
+def gen_unlisted_runs(rng, widths, fns):
+    """every record loader on inputs in which records with an unlisted chrom1 and/or chrom2 come in runs of 1, 2, 3 consecutive
+    records (same unlisted name repeated, or different ones), at the start, in the middle and at the end of the input / of a
+    chromosome, interleaved with listed records.  Expected: the unlisted ones vanish, the rest is binned exactly."""
+    blocks = blocks_from_widths(widths)
+    nc = len(blocks)
+    pos = [candidate_positions(blk) for blk in blocks]
+    cases = []
+    xid = [5000]
+
+    def valid(ob, c1=None):
+        c1 = rng.randrange(nc) if c1 is None else c1
+        c2 = c1 if rng.random() < 0.5 else rng.randrange(nc)
+        xid[0] += 2
+        return [c1, rng.choice(pos[c1][0]) + ob, xid[0], c2, rng.choice(pos[c2][0]) + ob, xid[0] + 1]
+
+    def run_of(ob, length, side, same, anchor=None):
+        """`length` consecutive records whose chrom1 / chrom2 / both are unlisted; the listed side (if any) stays on one chromosome
+        and one position so that the run stays consecutive in a position-sorted file"""
+        c = rng.randrange(nc) if anchor is None else anchor[0]
+        p = (rng.choice([pos[c][0][0], pos[c][0][-1], rng.choice(pos[c][0])]) if anchor is None else anchor[1]) + ob
+        un = rng.choice([-1, -2, -3])
+        out = []
+        for i in range(length):
+            u = un if same else (-1, -2, -3)[(i + un) % 3]
+            q = rng.choice([0, 3, 10 ** 6]) + ob
+            xid[0] += 2
+            if side == "chrom2":
+                out.append([c, p, xid[0], u, q, xid[0] + 1])
+            elif side == "chrom1":
+                out.append([u, q, xid[0], c, p, xid[0] + 1])
+            else:
+                out.append([u, q, xid[0], (-1, -2, -3)[(i + 1) % 3], q, xid[0] + 1])
+        return out
+
+    for fn in fns:
+        ob = rng.randint(0, 1)
+        ta = rng.choice(["reflect", "drop", None]) if fn != "cload_tabix" else None
+        segs = []
+        for si in range(rng.choice([3, 4, 5])):
+            length = (1, 2, 3)[(si + xid[0]) % 3]
+            side = rng.choice(["chrom2", "chrom2", "chrom1", "both"])
+            segs.append(run_of(ob, length, side, same=rng.random() < 0.6))
+            segs.append([valid(ob) for _ in range(rng.choice([1, 1, 2, 3]))])
+        if rng.random() < 0.7:
+            segs.append(run_of(ob, rng.choice([1, 2, 3]), "chrom2", same=True))     # the input ends with a run
+        else:
+            segs.insert(0, [valid(ob)])                                                # ... or starts with a listed record
+        recs = [r for s_ in segs for r in s_]
+        if fn == "cload_tabix":
+            # the indexed format wants upper-triangle records sorted by (chrom1, pos1); a stable sort keeps each run consecutive,
+            # and a listed record with the same chrom1/pos1 before the run makes the run follow a *different listed* chrom2
+            recs = [r_ if (r_[0] < 0 or r_[3] < 0 or (r_[0], r_[1]) <= (r_[3], r_[4])) else r_[3:] + r_[:3] for r_ in recs]
+            recs = [r_ if r_[0] >= 0 or r_[3] < 0 else r_[3:] + r_[:3] for r_ in recs]            # unlisted side -> chrom2 where possible
+            order = {c: i for i, c in enumerate(list(range(nc)) + [-3, -2, -1])}
+            recs.sort(key=lambda r_: (order[r_[0]], r_[1]))
+        opts = {"one_based": ob, "tril": ta, "ideal_b": widths[0][0] if (is_ideal(widths) and rng.random() < 0.5) else None,
+                "header": rng.random() < 0.5, "d8": False}
+        if fn == "sanitize_records":
+            opts = {"schema": rng.choice(["pairs", "bg2"]), "one_based": ob, "tril": ta, "sort": rng.random() < 0.5, "validate": True,
+                    "decode": True, "with_x": True, "chrom_repr": rng.choice(["object", "cat_alpha", "cat_subset", "cat_extra"]), "pos_dtype": "int64"}
+            if opts["schema"] == "bg2":
+                opts["sort"] = True
+            for cname, chunks in chunkings(rng, recs):
+                cases.append({"fn": fn, "widths": widths, "opts": dict(opts), "chunks": chunks, "label": "unlisted-runs:" + cname})
+            continue
+        if fn == "load_bg2":
+            seen, rr = set(), []
+            for r_ in recs:
+                if r_[0] >= 0 and r_[3] >= 0:
+                    k1, k2 = bin_containing(blocks, r_[0], r_[1] - ob), bin_containing(blocks, r_[3], r_[4] - ob)
+                    u = (k1, k2) if ta is None else tuple(sorted((k1, k2)))
+                    if u in seen:
+                        continue
+                    seen.add(u)
+                rr.append(r_)
+            recs = rr
+            for r_ in recs:
+                r_[2], r_[5] = r_[1] + 1, r_[4] + 1
+        else:
+            for r_ in recs:
+                r_[2] = r_[5] = 0
+        if fn == "cload_tabix":
+            csz = max(1, len(recs))
+            opts["nproc"] = 2 if rng.random() < 0.15 else 1
+            opts["max_split"] = rng.choice([None, 1, 2])
+        else:
+            csz = rng.choice([len(recs), 1, 2, 3, 4])
+        chunks = [recs[i:i + csz] for i in range(0, len(recs), csz)]
+        case = {"fn": fn, "widths": widths, "opts": opts, "chunks": chunks, "label": "cli:" + fn + ":unlisted-runs"}
+        if fn == "load_bg2":
+            case["values"] = [[rng.randint(1, 9) for _ in ch] for ch in chunks]
+        cases.append(case)
+    return cases
+
+
+LOADERS = ["cload_tabix", "cload_pairs", "load_bg2", "sanitize_records"]      # `cload pairix` needs pypairix, which is not installed
+
 CORPUS = [
     [[10, 10, 15]], [[7, 23]], [[10, 10], [35]], [[5, 5, 5], [5, 9]],        # D1 (repaired): longer last bin
     [[10, 10], [10, 10, 5], [7]], [[10, 10, 10], [10, 10, 3], [10]], [[4, 4, 1], [4], [4, 4]], [[3], [3], [2]],
@@ -944,6 +1049,10 @@ def run(ctx):
         cases += gen_record_cases(rng, widths, (60 if label == "corpus" else 25) if thorough else (40 if label == "corpus" else 14), not thorough)
         cases += gen_pixel_cases(rng, widths, 8 if thorough else 3)
         cases += gen_cli_cases(rng, widths, (8 if thorough else 4) if label == "corpus" else (2 if thorough else 1))
+        if label == "corpus" or thorough:
+            cases += gen_unlisted_runs(rng, widths, LOADERS if thorough else ["cload_tabix", LOADERS[1 + len(per_table) % 3], "cload_tabix"])
+        elif rng.random() < 0.5:
+            cases += gen_unlisted_runs(rng, widths, [rng.choice(LOADERS)])
         per_table.setdefault(canon_w(widths), [widths, []])[1].extend(cases)
     for case in D2_CASES + D27_CASES + REPR_CASES + AUDIT_CASES + CLI_CORPUS:
         per_table.setdefault(canon_w(case["widths"]), [case["widths"], []])[1].append(case)
@@ -974,10 +1083,20 @@ def run(ctx):
         if im == "timeout":
             ctx.fail({"widths": widths}, {"implementation": "timeout"}, None)
             continue
-        for case, i_, m_ in zip(cases, im, ms):
+        for j_, (case, i_, m_) in enumerate(zip(cases, im, ms)):
             counts[case["fn"]] += 1
+            if i_ == "deferred":
+                i_ = run_deferred(ctx, f"par{pos}_{j_}", case)
             judge(ctx, case, i_, m_)
     ctx.extra["scopes"] = dict(counts, tables=len(plan))
+
+
+def run_deferred(ctx, k, case):
+    """CLI runs that start their own process pool (nproc > 1) are executed by the harness process itself"""
+    try:
+        return run_cli(str(ctx.tmp), k, blocks_from_widths(case["widths"]), names_for(len(case["widths"])), case)
+    except Exception as e:  # noqa: BLE001
+        return "crash:" + type(e).__name__ + ":" + str(e)[:200]
 
 
 def canon_w(widths):
@@ -994,6 +1113,8 @@ def replay(ctx, case):
     res = table_worker((str(ctx.tmp), 0, widths, [case]))
     if res == "timeout":
         return False
+    if res[0] == "deferred":
+        res = [run_deferred(ctx, "replay", case)]
     sub = type("Sub", (), {})()
     fails = []
     sub.case = lambda *a, **k: None
